@@ -81,7 +81,9 @@ func (p *warcfieldsParser) readLine(r *bufio.Reader, pos *position) (line []byte
 	line = bytes.Trim(line, sphtcrlf)
 
 	n, e := r.Peek(1)
-	if e == io.EOF {
+	if e != nil {
+		// io.EOF or a read error: there is no next character. A read error is
+		// reported by the next call to ReadBytes.
 		nextChar = 0
 		return
 	}
